@@ -24,7 +24,7 @@ TraceInit == l = 1 /\ Init
 TReset ==
   /\ Ev("Reset")
   /\ idx' = Empty /\ data' = {} /\ dpages' = {0}
-  /\ meta' = [app |-> -1, ack |-> -1] /\ gd' = Empty
+  /\ meta' = [app |-> -1, ack |-> -1] /\ gd' = Empty /\ gdir' = {}
   /\ open' = TRUE /\ mApp' = -1 /\ mAck' = -1 /\ curPage' = 0 /\ curOff' = 0
   /\ gm' = Empty /\ ops' = Empty /\ truth' = Empty /\ res' = Empty
 
@@ -39,6 +39,7 @@ TOp ==
        [] Line.op = "Sync"        -> SyncStart(t)
        [] Line.op = "GC"          -> GCStart(t)
        [] Line.op = "CreateGroup" -> CreateGroupStart(t, Line.g)
+       [] Line.op = "CreateGroupFail" -> CreateGroupFailStart(t, Line.g)   \* injected: the meta page cannot be acquired
        [] Line.op = "StopGroup"   -> StopGroup(t, Line.g)
        [] Line.op = "SetAppended" -> SetAppendedStart(t, Line.s)
 
@@ -49,6 +50,7 @@ Match(st) ==
        [] st.k = "idx"     -> st.seq = Line.seq /\ st.f = Line.f /\ st.v = Line.v
        [] st.k = "meta"    -> st.f = Line.f /\ st.v = Line.v
        [] st.k = "g"       -> st.g = Line.g /\ st.f = Line.f /\ st.v = Line.v
+       [] st.k = "mkgdir"  -> st.g = Line.g
        [] st.k = "mkgroup" -> st.g = Line.g /\ st.cons = Line.cons /\ st.ack = Line.ack
        [] st.k = "mkpage"  -> st.page = Line.page
        [] st.k = "rmpage"  -> st.page = Line.page
